@@ -894,7 +894,7 @@ func CheckC15(c *C15Case, st *Stats) error {
 
 func init() {
 	p := Register("C15",
-		"three sub-checks, binary built with -race (halt_on_error), GOMAXPROCS drawn from {1,2,4,16}. foreach: list/object of size 0,1,2..40, 64, 65, 100, 130; every callback signals arrival and blocks on its own gate; a controller opens the gates in a drawn permutation; every callback must have been started within 20 s although the others are held back (calls run independently); at the instant ForEachAsync returns all n callbacks must have returned, each (index|key, value) exactly once, receiver returned. mapasync: MapAsync vs Map with a pure tagging function that yields a drawn number of times per element and, in one case of three, returns unusual supported values for every fourth element (nil, infinities, zero values, a string that is not valid UTF-8, sized numbers, native slices and maps). readers: 2-8 goroutines released together, each running 1-6 drawn non-mutating operations (41 list / 27 object operations incl. Concat on a receiver with spare capacity, Clone, SubList, Filter, Map, Merge, Keys, String, tree-form reads, aggregates, nested ForEachAsync/MapAsync) on one shared container; results must equal the sequential results computed on a twin container (the shared one is untouched until the goroutines start) (order-insensitively where the library's order is random) and the race detector must stay silent. Non-trivial = foreach with n >= 2 and a release order different from index order or GOMAXPROCS > 1; mapasync with n >= 2 and GOMAXPROCS > 1; readers with at least two allocating operations. Distinct = distinct FNV-64a hash of the case JSON.",
+		"three sub-checks, binary built with -race (halt_on_error), GOMAXPROCS drawn from {1,2,4,16}. foreach: list/object of size 0,1,2..40, 64, 65, 100, 130; every callback signals arrival and blocks on its own gate; a controller opens the gates in a drawn permutation; every callback must have been started within 20 s although the others are held back (calls run independently); at the instant ForEachAsync returns all n callbacks must have returned, each (index|key, value) exactly once, receiver returned. mapasync: MapAsync vs Map with a pure tagging function that yields a drawn number of times per element and, in one case of three, returns unusual supported values for every fourth element (nil, infinities, zero values, a string that is not valid UTF-8, sized numbers, native slices and maps). readers: 2-8 goroutines released together, each running 1-6 drawn non-mutating operations (41 list / 27 object operations incl. Concat on a receiver with spare capacity, Clone, SubList, Filter, Map, Merge, Keys, String, tree-form reads, aggregates, nested ForEachAsync/MapAsync) on one shared container; results must equal the sequential results computed on a twin container (the shared one is untouched until the goroutines start) (order-insensitively where the library's order is random) and the race detector must stay silent. Non-trivial = foreach with n >= 2 and a release order different from index order or GOMAXPROCS > 1; mapasync with n >= 2 and GOMAXPROCS > 1; readers with at least two allocating operations. Distinct = distinct FNV-64a hash of the case JSON. The pure function of the mapasync sub-check treats floats and ints in one of five ways (x+1, -x, |x|, x itself, x*0; elements include +0.0 and -0.0, compared bit for bit), and the Map result and the MapAsync result must be indistinguishable through every read-only operation of the readers sub-check (46 list / 27 object operations incl. all All* predicates; results above 130 elements: predicates, folds, typed views, lookups).",
 		GenC15, CheckC15)
 	p.PreWrite = true
 }
